@@ -48,6 +48,13 @@ def run_parts(prop, parts):
     return results
 
 
+def safe_describe(prop, u):
+    try:
+        return prop.describe(u["part"], u["case"]) if hasattr(prop, "describe") else None
+    except Exception:
+        return None
+
+
 def main():
     ap = argparse.ArgumentParser()
     ap.add_argument("prop")
@@ -122,7 +129,10 @@ def main():
         for k in sorted(set(r["mism"]) | set(r["jf"])):
             case, impl, (m, j) = part["cases"][k], r["impl"][k], r["mj"][k]
             kind = ("judge" if k in r["jf"] else "") + ("+corr" if k in r["mism"] else "")
-            fid = prop.classify(part, case, impl, m, j, findings) if findings else None
+            try:
+                fid = prop.classify(part, case, impl, m, j, findings) if findings else None
+            except Exception:          # a classification hook must never turn a divergence into a crash
+                fid = None
             if fid is not None:
                 known_printed.setdefault(fid, 0)
                 known_printed[fid] += 1
@@ -156,7 +166,7 @@ def main():
             except Exception as e:  # shrinking is best effort
                 u["shrink_error"] = repr(e)
         payload = dict(u, property=pid, seed=seed, tier=tier, proof_problems=proof_problems,
-                       describe=prop.describe(u["part"], u["case"]) if hasattr(prop, "describe") else None,
+                       describe=safe_describe(prop, u),
                        others=len(unknown) - 1,
                        replay_cmd="python3 tools/check.py %s --replay <this file>" % pid)
         path = C.write_replay(pid, payload)
